@@ -9,14 +9,15 @@
 (* harness executes against the real library.  The invariants below are    *)
 (* sanity lemmas relating the independent oracles to each other.           *)
 (***************************************************************************)
-EXTENDS Trans, Json, SequencesExt
+EXTENDS Repair, Json, SequencesExt
 
 CONSTANTS Terms,      \* terminal names, e.g. {1, 2}
           NTs,        \* nonterminal names, e.g. {11, 12}; Min(NTs) is the start symbol
           MaxRules, MaxRhs, MaxLen,
           UseErr,     \* allow `error' (name 0) in right-hand sides
           Variants,   \* translation variants offered per rule (see RuleOf)
-          EmitTrees   \* compute and emit translation sets
+          EmitTrees,  \* compute and emit translation sets
+          Recov       \* 0: nothing; k > 0: emit recovery expectations for recovery_match 1..k
 
 VARIABLES rules
 
@@ -53,13 +54,22 @@ Inputs == SeqsUpTo(Terms, MaxLen)
 TermDecls == SetToSeq({[n |-> t, c |-> t] : t \in Terms})
 Raw(rs) == [terms |-> TermDecls, rules |-> rs]
 
+(* rcs[k + 1][m]: cheapest simple recovery when the error is detected at token k (0-based) and
+   recovery_match = m.  The error token is the first offending one for grammars accepted under
+   strict checking (C06); otherwise detection may be later, so all k >= fo are tabulated. *)
+RecovCase(G, w, fo) ==
+  [rcs |-> [k1 \in 1..(Len(w) + 1) |->
+              [m \in 1..Recov |-> IF k1 - 1 < fo THEN -1 ELSE MinSimpleRecoveryCost(G, w, k1 - 1, m)]]]
+
 Case(G, w) ==
   LET sent == IsSentence(G, w)
       trs == IF EmitTrees /\ sent THEN Translations(G, w) ELSE {}
-  IN [w |-> w, sent |-> sent, fo |-> FirstOffending(G, w),
+      fo == FirstOffending(G, w)
+  IN [w |-> w, sent |-> sent, fo |-> fo,
       nd |-> IF sent THEN NDerivCapped(G, w) ELSE 0,
       trs |-> SetToSeq(trs),
-      mins |-> SetToSeq(MinOf(trs))]
+      mins |-> SetToSeq(MinOf(trs)),
+      rv |-> IF Recov > 0 /\ ~sent THEN <<RecovCase(G, w, fo)>> ELSE <<>>]
 
 Vector(rs) ==
   LET raw == Raw(rs)
